@@ -559,7 +559,7 @@ func runParent(c *Ctx) int {
 						mu.Lock()
 						agg.Hangs++
 						if spec.HangIsViolation {
-							agg.Viol = append(agg.Viol, Violation{Sig: "hang", Detail: fmt.Sprintf("case exceeded the %v watchdog twice (alone: %v)\n%s", spec.CaseTimeout, 3*spec.CaseTimeout, trunc(stderr, 2000)), CaseID: sr.lastID, Index: sr.lastStart})
+							agg.Viol = append(agg.Viol, Violation{Sig: "hang: " + sr.lastID, Detail: fmt.Sprintf("case exceeded the %v watchdog twice (alone: %v)\n%s", spec.CaseTimeout, 3*spec.CaseTimeout, trunc(stderr, 2000)), CaseID: sr.lastID, Index: sr.lastStart})
 						} else {
 							agg.Notes = append(agg.Notes, "hang (not a violation of this property): "+sr.lastID)
 							agg.Inex = append(agg.Inex, "case hung: "+sr.lastID)
@@ -782,12 +782,17 @@ func indent(s string) string { return strings.ReplaceAll(s, "\n", "\n    ") }
 
 var sanRe = regexp.MustCompile(`[^A-Za-z0-9_.=-]+`)
 
-func sanitize(s string) string {
-	s = sanRe.ReplaceAllString(s, "_")
-	if len(s) > 90 {
-		s = s[:90]
+func sanitize(sig string) string {
+	s := sanRe.ReplaceAllString(sig, "_")
+	if len(s) > 80 {
+		s = s[:80]
 	}
-	return strings.Trim(s, "_")
+	// distinct signatures must never share a replay file
+	var h uint32 = 2166136261
+	for i := 0; i < len(sig); i++ {
+		h = (h ^ uint32(sig[i])) * 16777619
+	}
+	return fmt.Sprintf("%s-%08x", strings.Trim(s, "_"), h)
 }
 
 func writeJSON(path string, v any) {
